@@ -20,7 +20,7 @@ RULE = ("(A) pure helpers eval_on_knots / bspline_derivative / get_greville_poin
         "point.  (C) bspline variables under MultipleShooting / DirectCollocation: samples on control, refined integrator "
         "and root grids must lie in the spline space of the declared order on the control-grid knots and agree across "
         "grids.  (D) on convex chain problems SplineMethod and MultipleShooting (rk) are solved with ipopt and must agree "
-        "on the optimal cost and trajectories.  (E) SplineMethod with grid='inf' constraints on chain states, bspline variables and der() of them (one- and two-sided, with constant offsets): the NLP is linear, so linear programmes over all its rows give the extreme values the refined sample of the constrained expression can take; a value beyond the declared bound witnesses rows that do not impose the constraint.  non-trivial = at least one spline evaluation compared with non-zero "
+        "on the optimal cost and trajectories.  (E) SplineMethod with grid='inf' constraints on chain states, bspline variables and der() of them (one- and two-sided, with constant offsets): the NLP is linear, so linear programmes over all its rows give the extreme values the refined sample of the constrained expression can take; a value beyond the declared bound witnesses rows that do not impose the constraint.  (F) chains perturbed by a constant term, a parametric term, a zero derivative, a scaled link, a cross term or a shared control: SplineMethod must either reject the model or the declared right-hand side must equal the analytic derivative of the sampled spline at every refined point.  non-trivial = at least one spline evaluation compared with non-zero "
         "coefficients; distinct = (part, degree/order, N, knot kind, refine, chain layout).")
 ASSUMPTIONS = ["scipy.interpolate.BSpline on clamped knot vectors is the specification of a B-spline",
                "networkx (optional dependency of SplineMethod) is taken from the offline wheelhouse"]
@@ -106,6 +106,13 @@ def gen_cases(rng, tier):
                       "grid": ocpgen.gen_grid(rng, ["uniform", "uniform", "geometric", "function"], 3), "cons": cons,
                       "t0": ocpgen.rnd(rng, -1, 1, 2), "T": ocpgen.rnd(rng, 0.4, 3, 2), "refine": 4,
                       "seed": rng.getrandbits(32)})
+    nf = 35 if tier == "quick" else 500
+    for i in range(nf):
+        cases.append({"part": "F", "kind": F_KINDS[i % len(F_KINDS)], "N": rng.choice([1, 2, 3, 4, 5]),
+                      "len": rng.choice([1, 2, 3]), "where": rng.randrange(3), "c": rng.choice([1.0, -0.7, 2.0, 0.35]),
+                      "pval": ocpgen.rnd(rng, 0.3, 2), "refine": rng.choice([2, 3, 5]),
+                      "grid": ocpgen.gen_grid(rng, ["uniform", "geometric", "function"], 3),
+                      "t0": ocpgen.rnd(rng, -1, 1, 2), "T": ocpgen.rnd(rng, 0.4, 3, 2), "seed": rng.getrandbits(32)})
     nd = 10 if tier == "quick" else 120
     for i in range(nd):
         cases.append({"part": "D", "N": rng.choice([4, 6, 8]), "len": rng.choice([2, 3]), "T": ocpgen.rnd(rng, 0.8, 2.5, 2),
@@ -714,5 +721,110 @@ def run_E(case):
     return res
 
 
+# ------------------------------------------------------------------------------------------------ part F
+F_KINDS = ["chain", "const-term", "param-term", "zero-derivative", "scaled-link", "cross-term", "shared-control"]
+
+
+def run_F(case):
+    """SplineMethod on systems that are (or are not quite) integrator chains: whatever is accepted must have its
+    declared right-hand sides hold identically in time (analytic derivative of the sampled spline); otherwise the
+    problem has to be rejected."""
+    import casadi as ca
+    import rockit
+    from ..gen import build
+    from ..obs import nlp
+    from ..ref import grids as G
+    N, r, kind = case["N"], case["refine"], case["kind"]
+    res = {"sig": "F|%s|N%d|%s|L%d" % (kind, N, C.grid_tag(case["grid"]), case["len"]), "evals": 0, "violations": [],
+           "counters": {"accepted": 0, "rejected": 0, "derivative_links": 0, "spline_points": 0}}
+    L = case["len"]
+    ocp = rockit.Ocp(t0=case["t0"], T=case["T"])
+    xs = [ocp.state() for _ in range(L)]
+    u = ocp.control()
+    u2 = ocp.control()
+    p = ocp.parameter()
+    ocp.set_value(p, case["pval"])
+    rhs = [xs[j + 1] if j + 1 < L else u for j in range(L)]
+    j = case["where"] % L
+    c = case["c"]
+    if kind == "const-term":
+        rhs[j] = rhs[j] + c
+    elif kind == "param-term":
+        rhs[j] = rhs[j] + p
+    elif kind == "zero-derivative":
+        rhs[j] = 0 * rhs[j]
+    elif kind == "scaled-link":
+        rhs[j] = c * rhs[j]
+    elif kind == "cross-term":
+        rhs[j] = rhs[j] + c * u2
+    elif kind == "shared-control":
+        rhs[j] = u
+    for x_, r_ in zip(xs, rhs):
+        ocp.set_der(x_, r_)
+    ocp.add_objective(ocp.sum(sum(ca.sumsqr(x_) for x_ in xs) + u ** 2 + u2 ** 2, include_last=True))
+    ocp.method(rockit.SplineMethod(N=N, grid=build.make_grid(case["grid"])))
+    ocp.solver("ipopt", {"ipopt.print_level": 0, "print_time": False})
+    try:
+        view = nlp.NlpView(ocp)
+        outs = []
+        for x_, r_ in zip(xs, rhs):
+            tg, cg = ocp.sample(x_, grid="gist")
+            tr, vr = ocp.sample(r_ if isinstance(r_, ca.MX) else ca.MX(r_), grid="control", refine=r)
+            outs += [ca.MX(cg), ca.MX(tr), ca.MX(vr)]
+        F = ca.Function("s", [view.x, view.p], outs)
+    except Exception as e:  # noqa  -- a rejection, in whatever form, is an acceptable outcome for a non-chain
+        if kind == "chain":
+            res["violations"].append(C.exc_violation(ID, C.RockitRaised("transcribe", e), "F|chain"))
+            return res
+        res["counters"]["rejected"] += 1
+        res["evals"] += 1
+        res["nontrivial"] = True
+        res["sample"] = {"kind": kind, "outcome": "rejected: " + str(e).strip().split("\n")[0][:100]}
+        return res
+    res["counters"]["accepted"] += 1
+    rng = np.random.default_rng(case["seed"])
+    nrm = np.array(G.normalized(case["grid"], N))
+    xi_phys = case["t0"] + case["T"] * nrm
+    for it in range(2):
+        w = view.random_point(rng, 1.0)
+        vals = [np.array(v, dtype=float) for v in F(w, view.p0)]
+        for jx in range(L):
+            cg, tr, vr = vals[3 * jx:3 * jx + 3]
+            cg = cg.reshape(1, -1)
+            d = cg.shape[1] - N
+            tr, vr = tr.reshape(-1), vr.reshape(-1)
+            if d < 1:
+                # a piecewise-constant signal has a derivative only if it does not jump
+                want = np.zeros_like(tr)
+                res["evals"] += 1
+                if np.max(cg) - np.min(cg) > 1e-9 * (1 + np.max(np.abs(cg))):
+                    res["violations"].append({
+                        "kind": "dynamics-not-identically", "mech": "C17|F|accepted-but-dynamics-do-not-hold|" + kind,
+                        "detail": "SplineMethod accepted a right-hand side for x%d (%s) but represents x%d by a piecewise "
+                                  "constant signal with jumps (coefficients %s): no derivative relation can hold" % (
+                                      jx, kind, jx, C.short(cg[0][:5]))})
+                    return res
+            else:
+                want = spline_eval(list(xi_phys), d, cg, tr, nu=1)[0]
+            res["evals"] += 1
+            res["counters"]["derivative_links"] += 1
+            res["counters"]["spline_points"] += len(tr)
+            # interior points only when the derivative is discontinuous at knots (degree 1)
+            sel = np.ones(len(tr), dtype=bool)
+            if d <= 1:
+                sel = np.array([not np.any(np.isclose(t_, xi_phys)) for t_ in tr])
+            if np.any(sel) and np.max(np.abs(vr[sel] - want[sel])) > 1e-7 * (1 + np.max(np.abs(want))):
+                k_ = int(np.argmax(np.abs(vr - want) * sel))
+                res["violations"].append({
+                    "kind": "dynamics-not-identically", "mech": "C17|F|accepted-but-dynamics-do-not-hold|" + kind,
+                    "detail": "SplineMethod accepted der(x%d) = %s (%s, c=%g) but at t=%.4g the derivative of the sampled "
+                              "spline is %.6g while the declared right-hand side evaluates to %.6g" % (
+                                  jx, "chain rhs with perturbation", kind, c, tr[k_], want[k_], vr[k_])})
+                return res
+    res["nontrivial"] = True
+    res["sample"] = {"kind": kind, "outcome": "accepted", "N": N, "len": L}
+    return res
+
+
 def run_case(case):
-    return {"A": run_A, "B": run_B, "C": run_C, "D": run_D, "E": run_E}[case["part"]](case)
+    return {"A": run_A, "B": run_B, "C": run_C, "D": run_D, "E": run_E, "F": run_F}[case["part"]](case)
